@@ -24,14 +24,19 @@ for m in muts:
                 raise SystemExit("mutant %s: pattern not found in %s: %r" % (m["id"], e["file"], e["old"][:60]))
             s = s.replace(e["old"], e["new"], 1)
             open(p, "w").write(s)
-        for prop in m["properties"]:
+        targets = [[p_] for p_ in m["properties"]]
+        if os.environ.get("MUT_UNITS") and m.get("units"):
+            # developer shortcut: only the units the mutant is aimed at (faster than the whole property)
+            targets = [["--unit", u_] for u_ in m["units"]]
+        for tgt in targets:
+            prop = tgt[-1]
             t0 = time.time()
-            r = subprocess.run([os.path.join(VERIF, "check"), prop], env=dict(os.environ, VERIF_REPO=d, VERIF_NO_EVIDENCE="1"),
+            r = subprocess.run([os.path.join(VERIF, "check")] + tgt, env=dict(os.environ, VERIF_REPO=d, VERIF_NO_EVIDENCE="1"),
                                capture_output=True, text=True)
             got = {0: "pass", 1: "violation", 2: "undecided"}.get(r.returncode, "rc%d" % r.returncode)
             ok = got == m["expect"]
             line = next((l for l in r.stdout.splitlines() if l.startswith(("VIOLATION", "UNDECIDED"))), "")
-            det = next((l.strip() for l in r.stdout.splitlines() if l.startswith("  obligation")), "")
+            det = next((l.strip() for l in r.stdout.splitlines() if l.startswith(("  obligation", "  failed"))), "")
             rows.append((m["id"], prop, m["expect"], got, ok))
             print("%-6s %-4s expect=%-9s got=%-9s %s  %.0fs  %s %s" % (m["id"], prop, m["expect"], got, "OK " if ok else "MISS", time.time() - t0, line[:150], det[:160]), flush=True)
     finally:
